@@ -7,7 +7,7 @@ import os
 
 import numpy as np
 
-from .. import core, geo, motlsys, motlutil
+from .. import argguard, core, geo, motlsys, motlutil
 
 PROPS = ["C05_UpdateKeepsComplete", "C05_ScaleMultiplies", "C05_ShiftMovesByOwnOrientation", "C05_RotateComposes",
          "C05_FlipMirrors", "C05_NothingAppearsOrVanishes"]
@@ -68,26 +68,103 @@ def dims_arg(kind, variant, workdir, cache=None):
     return path
 
 
-def apply_op(motl, op, variant, workdir, cache=None):
+def rotation_arg(code, variant):
+    """The same rotation built in each of the ways scipy offers (apply_rotation takes a Rotation object)."""
     from scipy.spatial.transform import Rotation
+    m = geo.code_to_matrix(code)
+    base = Rotation.from_matrix(m)
+    k = variant % 5
+    if k == 0:
+        return base
+    if k == 1:
+        return Rotation.from_quat(-base.as_quat())                    # the other quaternion of the same rotation
+    if k == 2:
+        return Rotation.from_rotvec(base.as_rotvec())
+    if k == 3:
+        return Rotation.from_euler("zxz", geo.euler_for_code(code), degrees=True)
+    return Rotation.from_euler("ZYZ", base.as_euler("ZYZ", degrees=True), degrees=True)
+
+
+def shift_arg(v, variant):
+    """The shift vector in one of the accepted forms (ndarray of either float width or integer, list, tuple)."""
+    k = (variant // 2) % 5
+    if k == 0:
+        return np.array(v, dtype=float)
+    if k == 1:
+        return list(v)
+    if k == 2:
+        return tuple(float(x) for x in v)
+    if k == 3 and all(float(x).is_integer() for x in v):
+        return np.array([int(x) for x in v])                          # integer-typed vector
+    if k == 4:
+        return np.array(v, dtype=np.float32) if all(float(np.float32(x)) == x for x in v) else np.array(v, dtype=float)
+    return np.array(v, dtype=float)
+
+
+def scale_arg(num, den, variant):
+    f = num / den
+    k = variant % 3
+    if k == 1 and den == 1:
+        return int(num)
+    if k == 2:
+        return np.float64(f)
+    return f
+
+
+def observe(motl, variant):
+    """Read-only calls between two steps: what they return must not depend on, nor feed, any hidden state."""
+    k = variant % 4
+    if k == 0:
+        motl.get_coordinates()
+    elif k == 1:
+        motl.get_rotations()
+    elif k == 2:
+        motl.get_angles()
+        motl.get_unique_values("tomo_id")
+    else:
+        motl.get_feature("tomo_id")
+
+
+def apply_op(motl, op, variant, workdir, cache=None):
+    """One public call.  The arguments are kept in `cache` for the whole history and handed over again whenever the
+    same value recurs: a call must leave its arguments as the caller gave them (returns a text when it did not)."""
     name = op["name"]
+    args = (cache if cache is not None else {}).setdefault("args", {})
+    guard = None
     if name == "update":
         motl.update_coordinates()
     elif name == "scale":
-        motl.scale_coordinates(op["num"] / op["den"])
+        motl.scale_coordinates(scale_arg(op["num"], op["den"], variant))
     elif name == "shift":
-        v = np.array(op["v"], dtype=float) / geo.U
+        key = ("shift", tuple(op["v"]), (variant // 2) % 5)
+        v = args.setdefault(key, shift_arg([x / geo.U for x in op["v"]], variant))
+        guard = argguard.Guard(shift=v)
         if variant % 2 == 0:
             motl.shift_positions(v)
         else:
-            new = motl.shift_positions(list(v), inplace=False)
+            new = motl.shift_positions(v, inplace=False)
             motl.df = new.df
     elif name == "rotate":
-        motl.apply_rotation(Rotation.from_matrix(geo.code_to_matrix(op["q"])))
+        key = ("rot", tuple(op["q"]), variant % 5)
+        rot = args.setdefault(key, rotation_arg(op["q"], variant))
+        before = rot.as_matrix().copy()
+        motl.apply_rotation(rot)
+        if np.max(np.abs(rot.as_matrix() - before)) > 0:
+            return "apply_rotation changed the Rotation object it was given"
     elif name == "flip":
-        motl.flip_handedness(dims_arg(op["kind"], variant, workdir, cache))
+        d = dims_arg(op["kind"], variant, workdir, cache)
+        # what the table SAYS must survive the call (the loader relabels the columns of a caller's 1x3 frame: harmless)
+        vals = (lambda: None if d is None or isinstance(d, str) else np.array(d.to_numpy() if hasattr(d, "to_numpy") else d, dtype=float))
+        before = vals()
+        motl.flip_handedness(d)
+        if before is not None:
+            why = argguard._eq_values(before, vals())
+            if why:
+                return "tomogram dimensions: " + why
     else:
         raise core.MachineryError("unknown op %r" % (op,))
+    observe(motl, variant // 3)
+    return guard.changed() if guard is not None else None
 
 
 def compare(ctx, motl, op, post, case):
@@ -139,12 +216,17 @@ def run_history(ctx, init, steps, variant, kind):
     motl = cryomotl.Motl(df)
     cache = {} if len(steps) > 1 else None
     for i, st in enumerate(steps):
-        _, err = core.call_guarded(apply_op, motl, st["op"], variant + i, ctx.workdir, cache)
+        changed, err = core.call_guarded(apply_op, motl, st["op"], variant + i, ctx.workdir, cache)
         sig = {"op": st["op"]["name"]}
         if st["op"]["name"] == "flip":
             sig["kind"] = st["op"]["kind"]
         if err is not None:
             ctx.fail("call_raises", "step %d %s: %s" % (i, st["op"], err), case, sig)
+            break
+        if changed:
+            # successive calls compose: the caller hands the same vector / table to the next call
+            ctx.fail("C05_CallsCompose", "step %d %s changed its argument (%s): a second call with the same object "
+                     "no longer composes" % (i, st["op"], changed), case, sig)
             break
         if not compare(ctx, motl, st["op"], st["post"], case):
             break
